@@ -252,6 +252,9 @@ def shape_class(items, fail):
             return "item_suppressed"
         if it["k"] == "SEC" and it["sec"][0] == "FIELDS" and any(i["sec"][0] == "FIELDS" and n != j for n, i in secs):
             return "item_suppressed"
+        if it["k"] == "SEC" and it["sec"][0] in ("HEADER", "ALL", "TEXT") and any(i["sec"][0] == it["sec"][0] and n != j for n, i in secs):
+            # each handler answers once: the same section requested twice (with and without a range)
+            return "item_suppressed" if not it["partial"] else "partial_range"
         if it["k"] == "SEC" and it["partial"]:
             return "partial_range"
         if it["k"] == "SEC" and it["sec"][0] == "PART":
